@@ -20,6 +20,7 @@ import Sgz.Model.HeaderReads
 import Sgz.Model.Derived
 import Sgz.Model.Xarray
 import Sgz.Model.SegyRaw
+import Sgz.Model.WriteOrder
 /-!
 Line-protocol driver over the executable model (`Sgz/Model`, Mathlib-free).  One request per line, one answer per
 line.  The Python harness sends the same request to the real implementation and diffs canonical answers.
@@ -330,6 +331,16 @@ def handleSegyRaw (ws : List String) : String :=
     ",".intercalate ((SegyRaw.conversionReads nil nxl ns b0).map fun (a, b) => s!"{a}:{b}")
   | _ => "bad-op"
 
+/-- `worder THOROUGH NBLOCKS NARRAYS`: kinds of the file operations of a conversion, in order -/
+def handleWOrder (ws : List String) : String :=
+  match ws.mapM String.toNat? with
+  | some [th, nb, na] =>
+    " ".intercalate ((WriteOrder.shape (th == 1) nb na).map fun k =>
+      match k with
+      | .A => "A"
+      | .P off => s!"P{off}")
+  | _ => "bad-op"
+
 /-- `emul indices S E T LEN`, `emul range A B C`, `emul acc LEN S E T`, `emul line K1,K2,… S E T` (emulator | segyio) -/
 def handleEmul (ws : List String) : String :=
   match ws with
@@ -586,6 +597,7 @@ def handle (line : String) : String :=
   | "emul" :: rest => handleEmul rest
   | "xr" :: rest => handleXr rest
   | "segyraw" :: rest => handleSegyRaw rest
+  | "worder" :: rest => handleWOrder rest
   | "crop" :: rest => handleCrop rest
   | "reblock" :: rest => handleReblock rest
   | "irr" :: rest => handleIrr rest
